@@ -147,6 +147,8 @@ mut("c06-sampling-with-replacement", "C06", "pybrops/opt/algo/SubsetGeneticAlgor
 mut("c06-problem-mutated", "C06", "pybrops/opt/algo/SortingSubsetOptimizationAlgorithm.py", "        gbest_soln = prob.decn_space[gbest_ix]", "        gbest_soln = prob.decn_space[gbest_ix]\n        if ndecn == 3: prob.decn_space[:] = prob.decn_space[::-1]", "candidate array reversed in place for three-member problems")
 mut("c06-revert-mutator-fix", "C06", "pybrops/opt/algo/pymoo_addon.py", "        Xhc[np.arange(nhcstep),lociix] = alleles[alleleix] # one exchanged locus per candidate", "        Xhc[:,lociix] = alleles[alleleix]", "reverts the MutatorA/B fix", count=2)
 mut("c06-integer-ga-float", "C06", "pybrops/opt/algo/IntegerGeneticAlgorithm.py", "            soln_decn = numpy.stack([res.X])", "            soln_decn = numpy.stack([res.X]) + 0.25", "integer solutions shifted off the lattice", count=0)
+mut("c06-revert-legacy-hc-start", "C06", "pybrops/opt/algo/UnconstrainedSteepestAscentSetHillClimber.py", "        gbest_soln = self.rng.choice(sspace, (k,), replace = False)", "        gbest_soln = self.rng.choice(sspace, (k,))", "reverts fix f652506e (legacy hill-climber start drawn with replacement)")
+mut("c06-pareto-keeps-tied-dominated", "C06", "pybrops/core/util/pareto.py", "        ndpt_mask = numpy.any(fmat > fmat[pt_ix], axis=1)\n        ndpt_mask[pt_ix] = True", "        ndpt_mask = numpy.any(fmat >= fmat[pt_ix], axis=1)", "Pareto filter keeps points that only tie the current point in one objective")
 
 # ---------------------------------------------------------------- C14
 GE = "pybrops/breed/prot/pt/G_E_Phenotyping.py"
